@@ -10,12 +10,12 @@ from vlib import log
 PROP = "C15"
 STATE_VARS = ["height", "stored", "rs", "db"]
 FAITHFUL = ["ContainerOK", "TopIsHeight", "StorageShape", "RestartResumes", "NoRerun", "NoRerunCtl", "HeightMonotone",
-            "HighestMonotone", "HistMonotoneExceptRerun"]
+            "HighestMonotone", "HistMonotoneExceptRerun", "RestartCoversLearned", "HistBehindHighest"]
 
 
 def _tier(tier):
     if tier == "quick":
-        return dict(mc=[("Controller_quick_light.cfg", 60), ("Controller_quick_full.cfg", 60)], mc_workers=4,
+        return dict(mc=[("Controller_quick_light.cfg", 45), ("Controller_quick_full.cfg", 45)], mc_workers=4,
                     sims=[("Controller_sim_light.cfg", 170, 14), ("Controller_sim_full.cfg", 170, 14)],
                     record_runs=100)
     return dict(mc=[("Controller_thorough_light.cfg", 1800), ("Controller_thorough_full.cfg", 1800),
@@ -32,6 +32,8 @@ ATTACKS = [  # (cfg, named deviation, property whose counterexample is the attac
     ("Controller_attack_gatestrict.cfg", "ShouldProcessDuty with > for >=: NoRerun"),
     ("Controller_attack_nobump.cfg", "UponDecided does not bump the height on a future decided: NoRerun"),
     ("Controller_attack_loadnoheight.cfg", "LoadHighestInstance does not restore the height: RestartResumes"),
+    ("Controller_attack_histfirst.cfg", "saveInstance writes the historical record before the highest record, crash between "
+                                        "the two writes: RestartCoversLearned"),
 ]
 # counterexamples of the FAITHFUL spec to the literal reading of the property's last sentence (recorded finding):
 FINDINGS = [
@@ -180,8 +182,8 @@ def run(tier, seed):
     vlib.write_evidence(PROP, tier, seed, "model_checking", coverage, time.time() - t0, [
         "one committee of 4, operator 1 is the node; certificates are the signer sets {1,2,3} and {1,2,3,4} at rounds 1 and 2, one value per height",
         "exhaustive results hold for the stated constants (heights 0..MaxH, restarts <= MaxRestarts, container capacity 2)",
-        "a crash happens between two calls of the runner; a single database Set is atomic (the two Sets of "
-        "SaveHighestAndHistoricalInstance are not separated by a crash)",
+        "a crash happens between two calls of the runner or inside a call right before any of its database writes "
+        "(a single database Set is atomic; the two Sets of SaveHighestAndHistoricalInstance are separate crash points)",
         "kv.NewInMemory stands in for the on-disk database; BLS verification is trusted",
         "the height-0 special case of ShouldProcessDuty (c.Height = 0 means 'nothing yet') is excluded explicitly from NoRerun",
     ], len(verdict.violations))
